@@ -55,6 +55,8 @@ func BinaryRead(payload BytesBuffer, order binary.ByteOrder, data any) error {
 				return io.ErrUnexpectedEOF
 			}
 			*data = string(buf)
+			// XDR strings are padded to a multiple of four bytes
+			payload.Next((4 - strlen%4) % 4)
 		case []bool:
 			for i, x := range bs { // Easier to loop over the input for 8-bit values.
 				data[i] = x != 0
